@@ -488,12 +488,22 @@ def pushDefaultK : B → Nat → R B
       -- repo fix 837fa53: the first variant that is not an `UnknownVariant` placeholder (variant 0 if all are);
       -- `serialize_variant` converts the index to `i8`
       let j := firstReal fs
-      if k ≠ 0 ∧ j > 127 then fail "out of range integral type conversion attempted"
+      let cj := cur.getD j 0
+      -- repo fix fe68100: `serialize_variant` checks `current_offset[j] + 1` (i32) before the `i8` conversion and
+      -- before the child's `serialize_default`: the first of the `k` rows
+      if k ≠ 0 ∧ cj + 1 > 2147483647 then
+        fail s!"Invalid union offsets: the offset type cannot represent the number of elements of variant {j}"
+      else if k ≠ 0 ∧ j > 127 then fail "out of range integral type conversion attempted"
       else do
         let fs' ← pushDefaultKAt fs j k
-        let cj := cur.getD j 0
-        pure (.union p fs' (types ++ List.replicate k (j : Int))
-          (offs ++ (List.range k).map (fun (i : Nat) => cj + (i : Int))) (cur.set j (cj + k))))
+        -- a later one of the `k` rows overflows the counter.  The one-pass model does not distinguish "a later row
+        -- overflows here" from "a later row fails in the child" (which of the two messages comes first): both are
+        -- `Err`, and the situation is only reachable beyond 2^31 rows of one variant
+        if k ≠ 0 ∧ cj + k > 2147483647 then
+          fail s!"Invalid union offsets: the offset type cannot represent the number of elements of variant {j}"
+        else
+          pure (.union p fs' (types ++ List.replicate k (j : Int))
+            (offs ++ (List.range k).map (fun (i : Nat) => cj + (i : Int))) (cur.set j (cj + k))))
 def pushDefaultKAll : BL → Nat → R BL
   | .nil, _ => .ok .nil
   | .cons b m rest, k => do
